@@ -19,9 +19,10 @@ pub fn carries_twins(doc: &Doc) -> bool {
     let of = |n: &str| doc.index_of.as_deref() == Some(n);
     plain
         && match doc.format {
-            Format::Bam | Format::SamGz | Format::Sam => doc.set == "full",
+            // exact names: the thorough corpus has several documents per record set
+            Format::Bam | Format::SamGz | Format::Sam => matches!(doc.name.as_str(), "bam-full-f3" | "samgz-full-f3" | "sam-full"),
             Format::Cram => doc.name == "cram-mapped-rps3",
-            Format::Bcf | Format::VcfGz | Format::Vcf => doc.set == "two-samples",
+            Format::Bcf | Format::VcfGz | Format::Vcf => matches!(doc.name.as_str(), "bcf-two-samples-f1" | "vcfgz-two-samples-f1" | "vcf-two-samples"),
             Format::Fasta => doc.name == "fasta-w60",
             Format::Fastq => doc.set == "desc",
             Format::Gff => doc.set == "gff0",
